@@ -179,13 +179,46 @@ def _impersonate_options(
             # FIXME: eol+n & opt+ not handled
 
         elif option == TCPOption.SACK:
-            # Randomize SAck value in range 10 <= val <= 34
-            sack_len = random.choice(range(10, 34 + 1, 8))
-            impersonated_option = ("SAck", b"\x00" * sack_len)
+            # SACK option is 10 to 34 bytes long, kind and length bytes included
+            impersonated_option = ("SAck", b"\x00" * 8)
 
         if impersonated_option is not None:
             options.append(impersonated_option)
 
+    return _align_options(options)
+
+
+def _option_length(option: Tuple[Any, Any]) -> int:
+    """
+    Length in bytes of a TCP option on the wire.
+    """
+    name, value = option
+
+    if name in ("EOL", "NOP"):
+        return 1
+
+    return 2 + {"MSS": 2, "WScale": 1, "Timestamp": 8, "SAckOK": 0}.get(
+        name, len(value) if isinstance(value, (bytes, str)) else 0
+    )
+
+
+def _align_options(options: List[Tuple[Any, Any]]) -> List[Tuple[Any, Any]]:
+    """
+    TCP options always fill a multiple of 4 bytes. Stretch a variable-length
+    option (SACK) if there is one, so that no padding (which p0f would
+    report as an extra EOL option) has to be appended.
+    """
+    missing = -sum(_option_length(option) for option in options) % 4
+
+    for i, (name, value) in enumerate(options):
+        if not missing:
+            break
+
+        if name == "SAck":
+            options[i] = (name, value + b"\x00" * missing)
+            missing = 0
+
+    # Nothing to stretch: leave the padding to the packet builder
     return options
 
 
